@@ -342,33 +342,49 @@ def grammar_job(args):
                     return e
                 f = wrap()
             ev.append(f)
+        def process(entry, n, results, st):
+            if not st.get('complete', True): out['inconclusive'].append(f'{entry} n={n}: exploration incomplete')
+            out['paths'] += len(results); out['forks'] += sum(r.forks for r in results)
+            cx = PathCtx(g, h, n)
+            viol = []
+            for r in results:
+                for e in ev: e(g, h, cx, r, viol)
+            out['prop_queries'] += cx.queries; out['prop_time'] += cx.time
+            # native cross-validation: all violating paths + a seeded sample
+            sample = opts.get('validate', 40)
+            cnt, mism = run.validate_native(h, results, sample=sample, seed=opts.get('seed', 0) + n)
+            out['validated'] += cnt
+            for r, d in mism: out['mismatches'].append(f'{g.name} {entry} {[h.tokens[k] for k in r.witness]} script={r.script}: {d[:300]}')
+            kept = {}
+            for v in viol:
+                k = (v.prop, v.kind)
+                kept[k] = kept.get(k, 0) + 1
+                if kept[k] > 3: out['suppressed_duplicates'] = out.get('suppressed_duplicates', 0) + 1; continue
+                v.confirmed = confirm(h, g, v)
+                out['violations'].append(v.asdict())
+            if results and len(out['samples']) < 3:
+                r = results[len(results) // 2]
+                out['samples'].append(dict(grammar=g.name, entry=entry, n=n, path_condition=[str(deser(c)) for c in r.pc][:12],
+                                           witness=[h.tokens[k] for k in r.witness], callback_script=r.script, status=r.status,
+                                           diagnostics=[list(d) for d in r.diags], nodes=len(r.nodes or [])))
         for entry in entries:
             for n in range(N + 1):
                 results, st, hit = cached_explore(pp, entry, n, out['stats'])
-                if not st.get('complete', True): out['inconclusive'].append(f'{entry} n={n}: exploration incomplete')
-                out['paths'] += len(results); out['forks'] += sum(r.forks for r in results)
-                cx = PathCtx(g, h, n)
-                viol = []
-                for r in results:
-                    for e in ev: e(g, h, cx, r, viol)
-                out['prop_queries'] += cx.queries; out['prop_time'] += cx.time
-                # native cross-validation: all violating paths + a seeded sample
-                sample = opts.get('validate', 40)
-                cnt, mism = run.validate_native(h, results, sample=sample, seed=opts.get('seed', 0) + n)
-                out['validated'] += cnt
-                for r, d in mism: out['mismatches'].append(f'{g.name} {entry} {[h.tokens[k] for k in r.witness]} script={r.script}: {d[:300]}')
-                kept = {}
-                for v in viol:
-                    k = (v.prop, v.kind)
-                    kept[k] = kept.get(k, 0) + 1
-                    if kept[k] > 3: out['suppressed_duplicates'] = out.get('suppressed_duplicates', 0) + 1; continue
-                    v.confirmed = confirm(h, g, v)
-                    out['violations'].append(v.asdict())
-                if results and len(out['samples']) < 3:
-                    r = results[len(results) // 2]
-                    out['samples'].append(dict(grammar=g.name, entry=entry, n=n, path_condition=[str(deser(c)) for c in r.pc][:12],
-                                               witness=[h.tokens[k] for k in r.witness], callback_script=r.script, status=r.status,
-                                               diagnostics=[list(d) for d in r.diags], nodes=len(r.nodes or [])))
+                process(entry, n, results, st)
+        # deep sentence pass: longer inputs, restricted to sentences of the grammar (membership asserted before execution,
+        # so the solver prunes every erroneous input at the first branch); constructs that only interact on inputs longer
+        # than the tier's bound are reached this way on their error-free paths
+        deep = g.meta.get('deep_sentences', 0)
+        if deep and not (g.features() & {'pred', 'assert', 'choice', 'ptrue'}):
+            from .oracle import Oracle
+            tokidx = {tk: i for i, tk in enumerate(h.tokens)}
+            skip = sorted({tokidx[x] for x in g.skip} | {tokidx['Error']})
+            def sent(tv):
+                return [z3.And(*[t != k for k in skip]) for t in tv] + [Oracle(g.rules_dict(), g.start, tv, tokidx).member()]
+            for n in range(N + 1, N + deep + 1):
+                results, st, hit = cached_explore(pp, 'parse', n, out['stats'], mode='sent', extra_pc_fn=sent)
+                out['deep_sentence_paths'] = out.get('deep_sentence_paths', 0) + len(results)
+                process('parse', n, results, st)
     except Unsupported as e:
         out['inconclusive'].append(f'{g.name}: {e}')
     except Exception as e:
